@@ -181,9 +181,22 @@ fn deep(rng: &mut Rng, d: usize) -> String {
 /// Wide documents: long arrays, objects with many members, long strings (sizes around the
 /// usual thresholds), so that size-dependent paths of reader, value model and printer are
 /// crossed as well.
+/// A value whose `Serialize` impl refuses.
+struct Refuses;
+impl serde::Serialize for Refuses {
+    fn serialize<S: serde::Serializer>(&self, _: S) -> Result<S::Ok, S::Error> {
+        Err(serde::ser::Error::custom("refused"))
+    }
+}
+
 fn wide(rng: &mut Rng) -> String {
     let n = [33usize, 64, 65, 129, 257, 1000, 1025, 4097][rng.below(8)] + rng.below(3);
-    match rng.below(4) {
+    match rng.below(5) {
+        4 => {
+            // octets and near-octets, negatives included (what a byte-string shortcut would mangle)
+            let (lo, hi) = [(-3i64, 255i64), (0, 255), (-128, 127), (-1, 256), (250, 260)][rng.below(5)];
+            format!("[{}]", (0..n).map(|_| rng.range(lo, hi).to_string()).collect::<Vec<_>>().join(","))
+        }
         0 => format!("[{}]", (0..n).map(|_| numeral(rng)).collect::<Vec<_>>().join(",")),
         1 => format!("[{}]", (0..n).map(|_| jtext(rng, 1)).collect::<Vec<_>>().join(", ")),
         2 => {
@@ -277,6 +290,23 @@ pub fn run(args: &Args) {
                 }
             }
             other => rep.violation("C08/to_value-failed", json!({"text": text, "got": format!("{:?}", other.map(|r| r.map(|_| ())))})),
+        }
+        // the same JSON value through the generic serde path (Variable::from_serializable), now and
+        // then right after a conversion that fails half-way down: a failure must leave nothing behind
+        if i % 3 == 0 {
+            if i % 12 == 0 {
+                let refused = guarded(|| Variable::from_serializable(&vec![vec![vec![Refuses]]]).is_err());
+                if refused != Ok(true) {
+                    rep.violation("C08/refusing-value-converted", json!({"got": format!("{:?}", refused)}));
+                }
+            }
+            match guarded(|| Variable::from_serializable(&v1)) {
+                Ok(Ok(back)) => match value_of(&back) {
+                    Ok(b) if val_identical(&b, &v1) => rep.count("generic_serializer_lossless"),
+                    other => rep.violation("C08/value-bridge-lossy/generic-serializer", json!({"text": text, "back": format!("{:?}", other)})),
+                },
+                other => rep.violation("C08/value-bridge-failed/generic-serializer", json!({"text": text, "got": format!("{:?}", other.map(|r| r.map(|_| ()).map_err(|e| e.to_string())))})),
+            }
         }
         if text.len() > 8 {
             rep.nontrivial(fnv(text.as_bytes()));
